@@ -41,7 +41,7 @@ CHECKS = {
             'non-NULL value are listed in the evidence.',
             'Trusted: the conformance predicate in checks/c04.py; value pools are small fixed sets per type.',
             'DESIGN.md section 4, C04'),
-    'C05': ('enumerated single-rule violations (~1000 statements incl. the complement of the operator/function typing table) expecting a ProgrammingError-family rejection; Hypothesis well-formed programs expecting acceptance; mutated / token-soup texts with exception bucketing; location-span and rendering checks',
+    'C05': ('enumerated single-rule violations (~2500 statements, also over FROM-subqueries, incl. the complement of the operator/function typing table) expecting a ProgrammingError-family rejection; Hypothesis well-formed programs expecting acceptance; mutated / token-soup texts with exception bucketing; location-span and rendering checks',
             'Both directions of "accepted exactly when": generated well-formed statements (text and AST) must compile, and an '
             'enumerated catalogue of statements each breaking one rule must be rejected with ParseError / CompilationError / '
             'ProgrammingError; token-level mutations and token soups, parsed and compiled against typed tables, must never '
@@ -160,7 +160,7 @@ CHECKS = {
             'sampled (30 000 cases each); 45 cast inputs x 5 casts x typed/untyped columns must give the value or NULL.',
             'Trusted: Python datetime, re, decimal, textwrap, dateutil.relativedelta as the definitions.',
             'DESIGN.md section 4, C18'),
-    'C19': ('model-based operation histories on one shell (settings-dictionary model; statement output recomputed through the API and the renderers with explicit arguments); enumerated command-line option subsets through click CliRunner',
+    'C19': ('model-based operation histories on one shell (settings-dictionary model; statement output recomputed through the API and the renderers with explicit arguments); enumerated command-line option subsets through click CliRunner; rewrite-and-reload scenario compared with a fresh shell',
             'Sequences of .set (all accepted spellings, invalid values, unknown and attribute names, wrong arity), .set NAME, '
             'statements in any letter case, .run NAME (default CLOSE date), .tables/.describe/.explain, unknown and legacy '
             'commands are run on one BQLShell in batch mode; after every step `.set` must print the model, errors must leave '
@@ -169,13 +169,13 @@ CHECKS = {
             'ledger with load errors.',
             'Trusted: query_render / numberify as called directly (C16, C17 check them); batch mode only.',
             'DESIGN.md section 4, C19'),
-    'C20': ('deterministic scheduler owning the interleaving of real threads (yield points at an impure BQL function, at row iteration and at column look-ups during compilation); Hypothesis-generated and exhaustively enumerated schedules; serial execution as oracle',
+    'C20': ('deterministic scheduler owning the interleaving of real threads (yield points at an impure BQL function, at row and directive iteration, at column look-ups during compilation, inside sort comparisons, and - trace part - at every function call inside the beanquery package via sys.settrace); Hypothesis-generated and exhaustively enumerated schedules; serial execution as oracle',
             '2-3 queries (balance referenced 0..3 times, aggregates, IN-subqueries, positional and named parameters, OPEN/'
             'CLOSE/CLEAR, BALANCES, JOURNAL, harness tables) run in real threads on a shared connection, separate '
             'connections or separate ledgers; exactly one thread runs at a time and control moves only at harness-placed '
             'yield points, so a run is a pure function of the schedule; every thread must return what its query returns '
-            'alone. All 2^8 (thorough: 2^12) schedule prefixes are enumerated for seven query pairs; 4000 (thorough 100000) '
-            'random schedules otherwise.',
+            'alone. All 2^8 (thorough: 2^12) schedule prefixes are enumerated for 17 query pairs; 4000 (thorough 100000) '
+            'random schedules and 320 (8000) function-call-granularity runs otherwise; parsed statements are shared between the threads in a third of the cases.',
             'Trusted: the scheduler (60 lines). Interleavings inside a single byte code of Beancount/CPython are not explored.',
             'DESIGN.md section 4, C20'),
 }
